@@ -4,6 +4,8 @@
 //
 // F-C02-1 (nondeterministic order of "unreferenced alias or let clause" errors) is fixed in /repo
 // (ff805e5) and no longer recognised: it would be reported as a violation.
+// F-C02-4 (panic 'not a string label' in compile.resolve on a malformed import path) likewise: fixed,
+// the witness corpus/C02/F-C02-4-*.cue is an ordinary regression input.
 package main
 
 import (
@@ -42,15 +44,6 @@ var knownClasses = []*knownClass{
 			`(?m)^  internal/core/adt\.validateValue@adt/validate\.go`, `(?m)^  internal/core/adt\.\(\*Vertex\)\.Finalize@adt/composite\.go`,
 			`(?m)^  internal/core/adt\.\(\*nodeContext\)\.validateValue@adt/eval\.go`, `stack overflow|SIGQUIT`},
 		Input: "any (recognised by the recursion cycle on the stack)",
-	},
-	{
-		ID: "F-C02-4",
-		What: "cue.Context.BuildFile on the partial AST that parser.ParseFile returns together with an error: an import whose path " +
-			"literal is malformed (e.g. invalid UTF-8) and whose name is referenced makes compile.resolve call " +
-			"Feature.StringValue on an invalid label -> panic \"not a string label\" escapes BuildFile (cmd/cue never compiles after a parse error)",
-		How: []string{"panic"},
-		DetailRe: []string{`^PANIC build \[after parse-error: partial AST\] not a string label \|\| cuelang\.org/go/internal/core/adt\.Feature\.StringValue@adt/feature\.go:\d+ < cuelang\.org/go/internal/core/compile\.\(\*compiler\)\.resolve@compile/compile\.go:\d+`},
-		Input: "any (the panic line itself says that the parse had failed)",
 	},
 	{
 		ID: "F-C02-5",
